@@ -13,6 +13,7 @@ import Umya.Driver.C14
 import Umya.Driver.C15
 import Umya.Driver.C02
 import Umya.Driver.C05
+import Umya.Driver.C01
 
 structure DState where
   c10 : Umya.Driver.C10.St := {}
@@ -20,6 +21,7 @@ structure DState where
   c20 : Umya.Driver.C20.State := {}
   c02 : Umya.Driver.C02.St := {}
   c05 : Umya.Driver.C05.St := {}
+  c01 : Umya.Driver.C01.St := {}
 
 def dispatch (st : DState) (line : String) : DState × String :=
   match line.trimAscii.toString.splitOn " " with
@@ -35,6 +37,7 @@ def dispatch (st : DState) (line : String) : DState × String :=
   | "c16" :: args => (st, Umya.Driver.C16.handle args)
   | "c12" :: args => (st, Umya.Driver.C12.handle args)
   | "c20" :: args => let (s, r) := Umya.Driver.C20.handle st.c20 args; ({ st with c20 := s }, r)
+  | "c01" :: args => let (s, r) := Umya.Driver.C01.handle st.c01 args; ({ st with c01 := s }, r)
   | "c05" :: args => let (s, r) := Umya.Driver.C05.handle st.c05 args; ({ st with c05 := s }, r)
   | "c02" :: args => let (s, r) := Umya.Driver.C02.handle st.c02 args; ({ st with c02 := s }, r)
   | "c07" :: args => let (s, r) := Umya.Driver.C07.handle st.c07 args; ({ st with c07 := s }, r)
